@@ -19,6 +19,7 @@ func (a *A) C02() {
 	a.drainBeforeEnd()
 	a.bufferedFirst()
 	a.appendOnlyQueue()
+	a.emptiedOnlyAtGap()
 	a.pusiReturnsPrevious()
 	a.noReadAhead(rd)
 	a.earlyFlush()
@@ -634,6 +635,139 @@ func (a *A) appendOnlyQueue() {
 		form := a.queueForm(ret.Results[0], x.recv, packetParams(x.add), map[ssa.Value]qform{}, &why)
 		a.R.Check(form != qBad, rule, fmt.Sprintf("add/returns-whole-queue/return#%d", i+1), a.ipos(ret),
 			"the returned group is nil or a complete queue value (never a truncated, re-ordered or merged slice)", "add returns "+strings.Join(why, "; "))
+	}
+}
+
+// S6b: the queue is emptied only where the unit is given up for a reason the stream states. Every reset of the queue
+// value in add — x[:0] of a queue value, a fresh make, nil — sits under the true edge of hasDiscontinuity (a gap: what was
+// gathered cannot be completed), of payload_unit_start_indicator (the old queue is returned, rule R3) or of isPSIComplete
+// (returned, rule R4). A reset under any other condition (a size limit, a timer, a PID test) silently discards the
+// packets of a unit that is still being assembled.
+func (a *A) emptiedOnlyAtGap() {
+	const rule = "S6"
+	x := a.accumulator(rule)
+	if x == nil {
+		return
+	}
+	f := x.add
+	var allowed []*ssa.BasicBlock
+	var names []string
+	addEdge := func(ci *condIf, name string) {
+		if ci == nil {
+			return
+		}
+		if b, excl := ci.when(true); excl {
+			allowed = append(allowed, b)
+			names = append(names, name)
+		}
+	}
+	addEdge(x.discIf, "hasDiscontinuity")
+	addEdge(x.pusiIf, "payload_unit_start_indicator")
+	if pc := a.P.Func("isPSIComplete"); pc != nil {
+		for _, ci := range ifsOn(f, func(v ssa.Value) bool {
+			c := callOf(v)
+			return c != nil && c.Call.StaticCallee() == pc
+		}) {
+			ci := ci
+			addEdge(&ci, "isPSIComplete")
+		}
+	}
+	if len(allowed) < 2 {
+		a.R.Unknown(rule, "add/emptied-only-at-gap", a.fpos(f), "the discontinuity / unit start / completeness edges of add could not be identified")
+		return
+	}
+	under := func(b *ssa.BasicBlock) bool {
+		for _, t := range allowed {
+			if t == b || t.Dominates(b) {
+				return true
+			}
+		}
+		return false
+	}
+	isQueueType := func(t types.Type) bool {
+		sl, ok := t.Underlying().(*types.Slice)
+		if !ok {
+			return false
+		}
+		pt, ok := sl.Elem().Underlying().(*types.Pointer)
+		if !ok {
+			return false
+		}
+		n, ok := pt.Elem().(*types.Named)
+		return ok && n.Obj().Name() == "Packet"
+	}
+	n := 0
+	var bad []string
+	_ = isQueueType
+	// the values that can reach a store to q, backwards through phis and append(x, p)
+	seen := map[ssa.Value]bool{}
+	var visit func(v ssa.Value, at *ssa.BasicBlock)
+	visit = func(v ssa.Value, at *ssa.BasicBlock) {
+		if v == nil {
+			return
+		}
+		if ssau.IsNilConst(v) {
+			n++
+			if !under(at) {
+				bad = append(bad, fmt.Sprintf("the queue becomes nil on the path through block %d, outside the discontinuity / unit start / completeness edges", at.Index))
+			}
+			return
+		}
+		if seen[v] {
+			return
+		}
+		seen[v] = true
+		switch x := v.(type) {
+		case *ssa.Phi:
+			for i, e := range x.Edges {
+				visit(e, x.Block().Preds[i])
+			}
+		case *ssa.Call:
+			if isBuiltin(&x.Call, "append") && len(x.Call.Args) > 0 {
+				visit(x.Call.Args[0], x.Block())
+				return
+			}
+			n++
+			bad = append(bad, fmt.Sprintf("the queue is replaced by the result of %s at %s", instrText(x), a.ipos(x)))
+		case *ssa.Slice:
+			if k, ok := ssau.ConstInt(x.High); x.High != nil && ok && k == 0 {
+				n++
+				if !under(x.Block()) {
+					bad = append(bad, fmt.Sprintf("%s at %s truncates the queue outside the discontinuity / unit start / completeness edges", instrText(x), a.ipos(x)))
+				}
+				return
+			}
+			if x.High == nil && x.Low == nil {
+				visit(x.X, x.Block())
+				return
+			}
+			n++
+			bad = append(bad, fmt.Sprintf("%s at %s keeps only a part of the queue", instrText(x), a.ipos(x)))
+		case *ssa.MakeSlice:
+			n++
+			if !under(x.Block()) {
+				bad = append(bad, fmt.Sprintf("a fresh queue is made at %s outside the discontinuity / unit start / completeness edges", a.ipos(x)))
+			}
+		case *ssa.UnOp:
+			if _, ok := a.fieldLoadOf(x, "packetAccumulator", "q"); !ok {
+				n++
+				bad = append(bad, fmt.Sprintf("the queue is replaced by %s at %s", instrText(x), a.ipos(x)))
+			}
+		default:
+			n++
+			bad = append(bad, fmt.Sprintf("the queue is replaced by %s", v.String()))
+		}
+	}
+	for _, st := range x.qStores {
+		visit(st.Val, st.Block())
+	}
+	switch {
+	case len(bad) > 0:
+		a.R.Bad(rule, "add/emptied-only-at-gap", a.fpos(f), strings.Join(bad, "; ")+": packets of a unit that is still being assembled are silently discarded")
+	case n == 0:
+		a.R.Unknown(rule, "add/emptied-only-at-gap", a.fpos(f), "no reset of the queue found in add")
+	default:
+		a.R.OK(rule, "add/emptied-only-at-gap", a.fpos(f), fmt.Sprintf("%d resets of the queue value (x[:0], make, nil), each under the true edge of %s", n, strings.Join(names, " / ")))
 	}
 }
 
